@@ -399,7 +399,9 @@ pub fn decode_build_case(t: &mut Tape, x: &mut Tape, max_n: usize, cap: Option<u
             batches.push((pairs, k));
         }
     }
-    let mut spec = GraphSpec { fns, edges, batches };
+    // one case in four inserts the functions through the batch form `add_fns`
+    let add_mode = if t.chance(1, 4) { 1 + t.below(2) as u8 } else { 0 };
+    let mut spec = GraphSpec { fns, edges, batches, add_mode };
     if let Some(cap) = cap {
         loop {
             let ue = user_edges(n, &spec.flat_calls()).edges;
@@ -497,20 +499,8 @@ pub struct Built {
 pub fn build_recorded(spec: &GraphSpec) -> Result<Built, String> {
     let r = catch_unwind(AssertUnwindSafe(|| {
         let mut b = FnGraphBuilder::new();
-        let mut ids_ok = true;
-        let ids: Vec<FnId> = spec
-            .fns
-            .iter()
-            .cloned()
-            .enumerate()
-            .map(|(i, f)| {
-                let id = b.add_fn(f);
-                if id.index() != i {
-                    ids_ok = false;
-                }
-                id
-            })
-            .collect();
+        let ids: Vec<FnId> = crate::model::add_all_fns(&mut b, spec);
+        let ids_ok = ids.iter().enumerate().all(|(i, id)| id.index() == i);
         let mut accepted = Vec::with_capacity(spec.edges.len());
         for &(a, c, k) in &spec.edges {
             let r = match k {
@@ -1203,6 +1193,10 @@ pub fn check_c17(case: &BuildCase, b: &Built, f: &BuildFacts) -> Vec<Violation> 
             .ok()
             .and_then(|s| serde_yaml_ng::from_str::<Vec<NodeInfo>>(&s).ok())
             .is_some_and(|b| b == exp_nodes);
+        let route_compact = crate::binfmt::to_bytes(&exp_nodes)
+            .ok()
+            .and_then(|b| crate::binfmt::from_bytes::<Vec<NodeInfo>>(&b).ok())
+            .is_some_and(|b| b == exp_nodes);
         if nodes != exp_nodes {
             out.push(v("C17", "nodes-differ", format!("GraphInfo nodes {nodes:?}")));
         }
@@ -1287,6 +1281,32 @@ pub fn check_c17(case: &BuildCase, b: &Built, f: &BuildFacts) -> Vec<Violation> 
             },
         }
         }
+        // a compact, not self-describing, not human-readable format (the harness's
+        // own: binfmt.rs), as bincode / postcard / MessagePack users have
+        if route_compact {
+        match crate::binfmt::to_bytes(&gi) {
+            Err(e) => out.push(v("C17", "compact-serialise", e.to_string())),
+            Ok(bytes) => match crate::binfmt::from_bytes::<GraphInfo<NodeInfo>>(&bytes) {
+                Err(e) => out.push(v("C17", "compact-deserialise", format!("compact binary format: {e}"))),
+                Ok(back) => {
+                    let nodes_back: Vec<NodeInfo> =
+                        back.graph.raw_nodes().iter().map(|n| n.weight.clone()).collect();
+                    if !(back == gi) || nodes_back != nodes || edges_of(&back) != got_edges {
+                        out.push(v("C17", "compact-roundtrip", format!("round trip through a compact (not human-readable) serde format changed the value: edges {:?} came back as {:?}", got_edges, edges_of(&back))));
+                    }
+                    let ids: Vec<usize> = back.iter().map(|n| n.id).collect();
+                    let mut o = vec![];
+                    check_order(&mut o, "GraphInfo::iter after a compact-format round trip", &ids, f, false);
+                    let ids: Vec<usize> = back.iter_rev().map(|n| n.id).collect();
+                    check_order(&mut o, "GraphInfo::iter_rev after a compact-format round trip", &ids, f, true);
+                    for mut x in o {
+                        x.prop = "C17".into();
+                        out.push(x);
+                    }
+                }
+            },
+        }
+        }
         if route_yaml {
         match serde_yaml_ng::to_string(&gi) {
             Err(e) => out.push(v("C17", "yaml-serialise", e.to_string())),
@@ -1354,13 +1374,14 @@ pub fn check_c17(case: &BuildCase, b: &Built, f: &BuildFacts) -> Vec<Violation> 
 
 /// Which serialisation routes round-trip the bare node list of this case (the
 /// routes on which C17 is then required of the GraphInfo).
-pub fn c17_routes(case: &BuildCase) -> [bool; 4] {
+pub fn c17_routes(case: &BuildCase) -> [bool; 5] {
     let nodes: Vec<NodeInfo> = case.labels.iter().enumerate().map(|(i, l)| NodeInfo::of(i, l)).collect();
     [
         serde_json::to_string(&nodes).ok().and_then(|s| serde_json::from_str::<Vec<NodeInfo>>(&s).ok()).is_some_and(|b| b == nodes),
         serde_json::to_value(&nodes).ok().and_then(|v| serde_json::from_value::<Vec<NodeInfo>>(v).ok()).is_some_and(|b| b == nodes),
         serde_json::to_vec(&nodes).ok().and_then(|v| serde_json::from_reader::<_, Vec<NodeInfo>>(std::io::Cursor::new(v)).ok()).is_some_and(|b| b == nodes),
         serde_yaml_ng::to_string(&nodes).ok().and_then(|s| serde_yaml_ng::from_str::<Vec<NodeInfo>>(&s).ok()).is_some_and(|b| b == nodes),
+        crate::binfmt::to_bytes(&nodes).ok().and_then(|b| crate::binfmt::from_bytes::<Vec<NodeInfo>>(&b).ok()).is_some_and(|b| b == nodes),
     ]
 }
 
@@ -1504,6 +1525,9 @@ impl BuildCheck {
 
 pub fn build_labels(case: &BuildCase, ev: &BuildEval) -> Vec<String> {
     let mut l = vec![format!("size:{}", crate::gen::size_class(case.spec.n()))];
+    if case.spec.add_mode != 0 && case.spec.n() > 0 {
+        l.push(format!("insert:functions_through_add_fns(mode {})", case.spec.add_mode));
+    }
     if let Some(f) = &ev.facts {
         if !f.expect_data.is_empty() {
             l.push("graph:expects_data_edges".into());
@@ -1556,7 +1580,7 @@ impl Check for BuildCheck {
         let mut labels = build_labels(&case, &ev);
         if self.prop == "C17" {
             let r = c17_routes(&case);
-            for (i, name) in ["json_text", "json_value", "json_reader", "yaml"].iter().enumerate() {
+            for (i, name) in ["json_text", "json_value", "json_reader", "yaml", "compact_binary"].iter().enumerate() {
                 if r[i] {
                     labels.push(format!("route_applies:{name}"));
                 }
@@ -1673,7 +1697,7 @@ pub fn exhaustive(prop: &str, max_n: usize, with_access: bool, workers: usize) -
                             })
                             .collect();
                         let case = BuildCase {
-                            spec: GraphSpec { fns, edges: es, batches: vec![] },
+                            spec: GraphSpec { fns, add_mode: (es.len() % 3) as u8, edges: es, batches: vec![] },
                             fail_pos: if n == 0 { 0 } else { a % n },
                             mutation: None,
                             labels: (0..n).map(|i| format!("f{i}")).collect(),
@@ -1781,7 +1805,7 @@ pub fn big_build_specs(thorough: bool, seed: u64) -> Vec<(String, GraphSpec)> {
             let j = (next() % (i as u64 + 1)) as usize;
             edges.swap(i, j);
         }
-        out.push((format!("bipartite conflict graph: {a} writers x {b} readers, {} directly joined conflicting pairs", a * b), GraphSpec { fns, edges, batches: vec![] }));
+        out.push((format!("bipartite conflict graph: {a} writers x {b} readers, {} directly joined conflicting pairs", a * b), GraphSpec { fns, edges, batches: vec![], add_mode: 0 }));
     }
     // deep: a chain of more than 1024 functions without data access, inserted tail first
     // (every function has a smaller id than all its ancestors)
@@ -1793,7 +1817,7 @@ pub fn big_build_specs(thorough: bool, seed: u64) -> Vec<(String, GraphSpec)> {
         if seed % 2 == 1 {
             edges.reverse();
         }
-        out.push((format!("chain of {n} functions inserted tail first (depth beyond 1024)"), GraphSpec { fns, edges, batches: vec![] }));
+        out.push((format!("chain of {n} functions inserted tail first (depth beyond 1024)"), GraphSpec { fns, edges, batches: vec![], add_mode: 0 }));
     }
     // sparse: more than 1024 / 2048 functions, every function has 0..=2
     // predecessors among the 40 before it in a hidden order (forks, joins, long chains),
@@ -1837,8 +1861,8 @@ pub fn big_build_specs(thorough: bool, seed: u64) -> Vec<(String, GraphSpec)> {
         // cannot turn into a `WouldCycle` panic of the augmenter (which is C11's to report)
         // before the ranks are seen
         let plain: Vec<TestFn> = (0..n).map(|id| TestFn { id, reads: vec![], writes: vec![] }).collect();
-        out.push((format!("sparse DAG of {n} functions (0..=2 predecessors each within a window of 40 in a hidden order), no data access"), GraphSpec { fns: plain, edges: edges.clone(), batches: vec![] }));
-        out.push((format!("sparse DAG of {n} functions (0..=2 predecessors each within a window of 40 in a hidden order), 4 data types with ~1% writers and ~4% readers each"), GraphSpec { fns, edges, batches: vec![] }));
+        out.push((format!("sparse DAG of {n} functions (0..=2 predecessors each within a window of 40 in a hidden order), no data access"), GraphSpec { fns: plain, edges: edges.clone(), batches: vec![], add_mode: 0 }));
+        out.push((format!("sparse DAG of {n} functions (0..=2 predecessors each within a window of 40 in a hidden order), 4 data types with ~1% writers and ~4% readers each"), GraphSpec { fns, edges, batches: vec![], add_mode: 0 }));
     }
     let mut win: Vec<(usize, usize)> = vec![(364 + (seed % 9) as usize, 24)];
     if thorough {
@@ -1862,7 +1886,7 @@ pub fn big_build_specs(thorough: bool, seed: u64) -> Vec<(String, GraphSpec)> {
             let j = (next() % (i as u64 + 1)) as usize;
             edges.swap(i, j);
         }
-        out.push((format!("one cluster of {s} mutually conflicting functions, user edges within a window of {w}"), GraphSpec { fns, edges, batches: vec![] }));
+        out.push((format!("one cluster of {s} mutually conflicting functions, user edges within a window of {w}"), GraphSpec { fns, edges, batches: vec![], add_mode: 0 }));
     }
     out
 }
@@ -2067,11 +2091,11 @@ pub fn graph_info_iter_work() -> IterWork {
                 }
             }
         }
-        specs.push((1u64 << l.min(62), format!("2-wide ladder of {l} layers"), GraphSpec { fns: plain(n), edges, batches: vec![] }));
+        specs.push((1u64 << l.min(62), format!("2-wide ladder of {l} layers"), GraphSpec { fns: plain(n), edges, batches: vec![], add_mode: 0 }));
     }
     for n in [8usize, 12, 16, 20, 24, 28, 32, 40] {
         let edges = (0..n).flat_map(|i| (i + 1..n).map(move |j| (i, j, Kind::Logic))).collect();
-        specs.push((1u64 << (n - 2).min(62), format!("complete DAG on {n} functions"), GraphSpec { fns: plain(n), edges, batches: vec![] }));
+        specs.push((1u64 << (n - 2).min(62), format!("complete DAG on {n} functions"), GraphSpec { fns: plain(n), edges, batches: vec![], add_mode: 0 }));
     }
     specs.sort_by_key(|s| s.0);
     for (_paths, what, spec) in specs {
